@@ -18,6 +18,11 @@ UNITS = [
     {'name': 'bfv.core@u16', 'backend': 'verus', 'tier': 'quick'},
     {'name': 'bfv.core@u32', 'backend': 'verus', 'tier': 'quick'},
     {'name': 'bfv.core@u128', 'backend': 'verus', 'tier': 'quick'},
+    {'name': 'bfv.copy@u64', 'backend': 'verus', 'tier': 'quick'},
+    {'name': 'bfv.copy@usize', 'backend': 'verus', 'tier': 'quick'},
+    {'name': 'bfv.copy@u8', 'backend': 'verus', 'tier': 'quick'},
+    {'name': 'bfv.copy@u16', 'backend': 'verus', 'tier': 'quick'},
+    {'name': 'bfv.copy@u32', 'backend': 'verus', 'tier': 'quick'},
 ]
 
 TRUSTED_BASE = [
